@@ -9,9 +9,11 @@
       (LoadWithFunc) still finds an expired sending element ([tget_sent_request]);
    3. corollaries: an expired reassembly element is invisible to Handle, a token reused
       after the deadline behaves as a fresh one;
-   4. scripts without Age / Sweep: the timed run IS the run of Model.v (all theorems
+   4. ALL timed scripts (time passing and sweeps at any point): safety, exactly once,
+      the whole Spec.c04_ok;
+   5. scripts without Age / Sweep: the timed run IS the run of Model.v (all theorems
       about [run] are theorems about the timed system at rest);
-   5. ALL timed scripts (time passing and sweeps at any point): the safety theorem. *)
+   6. two concrete histories (the getSentRequest exception; the seeded regression's). *)
 From Coq Require Import ZArith List Bool Lia.
 From GoCoap Require Import Base.Bytes Gen.BlockConsts Block.Model Blockwise.Config Blockwise.Model
   Blockwise.Spec Blockwise.Proofs Blockwise.Timed Blockwise.Run Blockwise.ProofsExchange.
@@ -585,7 +587,7 @@ Proof.
 Qed.
 
 (* ------------------------------------------------------------------------ *)
-(* 5. ALL timed scripts: safety                                              *)
+(* 4. ALL timed scripts: safety, exactly once, c04_ok                          *)
 Section TSystem.
   Variable c : cfg.
   Hypothesis Hwf : cfg_wf c.
@@ -1190,7 +1192,7 @@ Section TSystem.
 End TSystem.
 
 (* ------------------------------------------------------------------------ *)
-(* 4. at rest: a script without Age / Sweep                                   *)
+(* 5. at rest: a script without Age / Sweep                                   *)
 (* While no time passes every element is valid (and its deadline is at most   *)
 (* now + EXP, so that the far-future sweep of Model.v, Expire, removes it):    *)
 (* the timed run IS the run of Model.v, event by event, observation by          *)
